@@ -13,7 +13,7 @@ property states).  The fault-free world of every operation is additionally run t
 ``graphql_blocking`` (text in, parse + validate + execute), through the generic ``Executor`` class,
 and through ``default_resolver`` over a nested dict/object tree.
 
-E2: on ONE Schema object, every sequence of <= L requests from a menu of 8; every response must
+E2: on ONE Schema object, every sequence of <= L requests from a menu of 9; every response must
 equal the response a fresh schema gives to the same request.
 """
 import json
@@ -57,8 +57,8 @@ ASSUMPTIONS = [
     "BlockingExecutor is the main target; the generic Executor and graphql_blocking are run on the fault-free world only (the other runtimes belong to C08)",
 ]
 BOUNDS = {
-    "quick": {"base_nodes": 4, "dev1_nodes": 2, "dev2_nodes": 1, "exhaustive_invocations": 4, "faults_beyond": 1, "history_depth": 3, "menu": 8},
-    "thorough": {"base_nodes": 5, "dev1_nodes": 3, "dev2_nodes": 2, "exhaustive_invocations": 5, "faults_beyond": 2, "history_depth": 4, "menu": 8},
+    "quick": {"base_nodes": 4, "dev1_nodes": 2, "dev2_nodes": 1, "exhaustive_invocations": 4, "faults_beyond": 1, "history_depth": 3, "menu": 9},
+    "thorough": {"base_nodes": 5, "dev1_nodes": 3, "dev2_nodes": 2, "exhaustive_invocations": 5, "faults_beyond": 2, "history_depth": 4, "menu": 9},
 }
 TIME_CAP = {"quick": 150, "thorough": 1500}
 
@@ -327,12 +327,15 @@ def compare(ref, lib, mode, feat):
                     "[%s %s] path %s: library locations %s, field nodes %s (first %s)" % (mode, feat, p, locs, alls, first),
                 ))
                 break
-    # one root cause, one class: a field error the reference does not expect (null + error where a value belongs)
-    if len(out) == 2 and out[0][0].startswith("data-differs/") and out[0][0].endswith("lib=null,ref=%s" % out[0][0].rsplit("ref=", 1)[1]) and out[1][0].startswith("error-multiset/extra/"):
-        p = _first_diff(json.loads(dj), json.loads(rj))
-        extra = [x for x in lp if x[0] not in rpaths]
-        if len(extra) == 1 and tuple(extra[0][1] or ()) == tuple(p):
-            out = [("unexpected-field-error/%s" % R.describe(ref, p), out[0][1] + " ; " + out[1][1])]
+    # one root cause, one class: a field error the reference does not expect (an extra error whose
+    # path holds null in the library's data, whether or not the reference has a value there)
+    extra = [x for x in lp if x[0] not in rpaths]
+    if len(extra) == 1 and lpaths != rpaths and not [x for x in rp if x[0] not in lpaths]:
+        p = tuple(extra[0][1] or ())
+        if _walk(raw, p) is None:
+            dp = _first_diff(json.loads(dj), json.loads(rj)) if dj != rj else None
+            if dp is None or tuple(dp) == p:
+                out = [("unexpected-field-error/%s" % R.describe(ref, p), " ; ".join(d for _c, d in out))]
     # every error path points at a null
     for p, _locs in errs:
         if p is None or _walk(raw, p) is not None:
@@ -367,11 +370,11 @@ def run_document(name, case, st, bounds, opnames=(None,)):
         verrs = validate_ast(schema(name), ast).errors
     except Exception as e:  # noqa
         st.n("parse_or_validate_raised")
-        st.note("parse/validate raised %s on a generated document (left to C05/C06): %s" % (type(e).__name__, text[:120]))
+        st.note("parse/validate raised %s on some generated documents (counted as parse_or_validate_raised; reported by C05)" % type(e).__name__)
         return out
     if verrs:
         st.n("validator_rejects_generated_document")
-        st.note("validator rejects a generated document (left to C06), e.g.: %s -- %s" % (text[:160], str(verrs[0])[:120]))
+        st.note("validator rejects some generated documents (counted as validator_rejects_generated_document; reported by C06)")
         return out
     st.n("documents")
     for opname in opnames:
@@ -478,6 +481,9 @@ def multi_op_cases():
 # E2: request histories on one schema object
 
 
+_SHARED_Q = "query ($f: Boolean!, $n: Int!) { pets { ... on Cat { lives } n name @include(if: $f) } x: echo(r: $n) n li ...Fr @skip(if: $f) } fragment Fr on Q { c }"
+
+
 def _menu():
     from py_gql.utilities import introspection_query
 
@@ -489,7 +495,9 @@ def _menu():
         {"q": "mutation { inc(by: 2) set(v: 1) { v c } }", "world": {"set/c": "null"}},
         {"q": "query ($l: [Int!]!, $n: Int!, $c: [Color]) { echo(l: $l, r: $n) lc x: echo(e: GREEN, o: {b: [\"x\"]}) y: echo(e: RED) @include(if: true) }", "variables": {"l": [1, 2], "n": 5, "c": ["RED", None]}, "world": {}},
         {"q": "query ($l: [Int!]!, $n: Int!) { echo(l: $l, r: $n) }", "variables": {"l": [1, None], "n": None}, "world": {}},
-        {"q": "{ pets { ... on Cat { lives } n name } n li }", "world": {"pets": "[v,v]", "pets/0#": "Cat", "pets/1/n": "null", "n": "err", "li": "[v,null]"}, "preparsed": True},
+        # one pre-parsed Document object shared by two menu entries that differ in their variables only
+        {"q": _SHARED_Q, "variables": {"f": True, "n": 1}, "world": {"pets": "[v,v]", "pets/0#": "Cat", "pets/1/n": "null", "n": "err", "li": "[v,null]"}, "preparsed": "P"},
+        {"q": _SHARED_Q, "variables": {"f": False, "n": 2}, "world": {"pets": "[v,v]", "pets/1#": "Cat"}, "preparsed": "P"},
     ]
 
 
@@ -510,9 +518,10 @@ def _menu_request(schema_obj, i):
     ctx = {"world": m["world"]}
     try:
         if m.get("preparsed"):
-            if i not in _SHARED_AST:
-                _SHARED_AST[i] = parse(m["q"])
-            r = process_graphql_query(schema_obj, _SHARED_AST[i], variables=m.get("variables"), context=ctx, executor_cls=BlockingExecutor)
+            key = m["preparsed"]
+            if key not in _SHARED_AST:
+                _SHARED_AST[key] = parse(m["q"])
+            r = process_graphql_query(schema_obj, _SHARED_AST[key], variables=m.get("variables"), context=ctx, executor_cls=BlockingExecutor)
         else:
             r = graphql_blocking(schema_obj, m["q"], variables=m.get("variables"), context=ctx)
         return json.dumps(r.response())
